@@ -28,6 +28,8 @@ def run(ctx):
     ctx.guarded('R11d', FLUSH, lambda: r11d(ctx))
     ctx.rule('R11e', 'ShardFileManager::new_impl hands out a manager (cached or new) only after a successful rescan of its shard directory (refresh_shard_dir): shards that another session or process exported into the shared cache since are found')
     ctx.guarded('R11e', NEWIMPL, lambda: r11e(ctx))
+    ctx.rule('R11f', 'the chunk index built when shards are registered leaves a chunk out only because a value it must narrow does not fit: every skip guard in the indexing loop tests the value stored into a narrower field of the index element')
+    ctx.guarded('R11f', 'mdb_shard::shard_file_manager::ShardFileManager::register_shards', lambda: r11f(ctx))
 
 
 class _Alias:
@@ -307,3 +309,58 @@ def r11e(ctx):
     for (b, si) in oks:
         ctx.check(bool(se) and a.cfg.must_pass(b, via_edges=se), 'R11e', fn, 'refresh<Ok', a.loc(b, si), 'the manager is returned only after refresh_shard_dir succeeded on this call',
                   'a manager can be returned without rescanning its shard directory: shards exported into the shared cache by another session/process since the manager was cached are never found')
+
+
+def r11f(ctx):
+    """C11e: `if cas_start_index > u16::MAX { continue }` in place of `cas_chunk_offset`: every chunk of a xorb whose record
+    starts past entry 65535 of a big session shard is never indexed, and a later session cannot find it.
+    The indexing loop of register_shards may skip a chunk only on a comparison of the very value that is stored into a field
+    of the index element that is narrower than its source (the u16 fields of ChunkCacheElement)."""
+    from .core import edges_where, cond_edges, strip_generics as sg
+    F = ctx.F
+    RS = 'mdb_shard::shard_file_manager::ShardFileManager::register_shards::{closure#0}'
+    a = an(F.body(RS))
+    fn = RS
+    ins = [c for c in a.calls() if sg(a.term(c).get('fn', '')).split('::')[-1] == 'insert' and len(a.term(c)['args']) == 3
+           and a.arg(c, 2)[0] == 'agg' and a.arg(c, 2)[2].endswith('ChunkCacheElement')]
+    if not ctx.check(len(ins) == 1, 'R11f', fn, 'index insert', '-', 'one insertion of a ChunkCacheElement into the chunk lookup', 'expected one ChunkCacheElement insertion, found %d' % len(ins)):
+        return
+    I = ins[0]
+    adt = F.adts.get('mdb_shard::shard_file_manager::ChunkCacheElement')
+    ftypes = {f['n']: f['ty'] for f in adt['variants'][0]['fields']} if adt else {}
+    stored = dict(a.arg(I, 2)[3])
+    def strip(e):
+        while e[0] == 'cast':
+            e = e[1]
+        return e
+    narrow = {n: strip(e) for n, e in stored.items() if ftypes.get(n) in ('u16', 'u8')}
+    lps = [l for l in a.cfg.loops().items() if I in l[1]]
+    if not ctx.check(bool(lps) and bool(narrow), 'R11f', fn, 'indexing loop', a.loc(I), 'the insertion runs in the indexing loop; %d narrow field(s) of the element' % len(narrow)):
+        return
+    lp = min(lps, key=lambda l: len(l[1]))
+    latches = [(x, lp[0]) for x in lp[1] if lp[0] in a.cfg.succ[x]]
+    # edges inside the loop from which the latch is reachable without passing the insert: skip edges
+    n_guard = 0
+    for b in sorted(lp[1]):
+        ce = cond_edges(a, b)
+        if not ce:
+            continue
+        op, l, r, te, fe = ce
+        for edges in (te, fe):
+            for (x, y) in edges:
+                if y not in lp[1]:
+                    continue
+                r_ = a.cfg.reach([y], cut_blocks=[I], cut_edges=set(latches))
+                skips = any(lx in r_ or lx == y for (lx, _) in latches) and I not in r_
+                other = [e2 for e2 in (te if edges is fe else fe)]
+                takes = any(I in a.cfg.reach([y2], cut_edges=set(latches)) or y2 == I for (_, y2) in other)
+                if not (skips and takes):
+                    continue
+                n_guard += 1
+                ops = [strip(l), strip(r)]
+                val = [o for o in ops if o[0] != 'const']
+                ok = len(val) == 1 and any(flow.eqv(val[0], v) or val[0] == v for v in narrow.values())
+                ctx.check(ok, 'R11f', fn, 'skip guard', a.loc(b), 'a chunk is skipped only on a test of the value that is narrowed into the index element (%s)' % flow.show(val[0])[-40:] if val else '?',
+                          'the indexing loop skips a chunk on a test of %s, which is not a value the index element stores in a narrower field (%s): chunks are left out of the dedup index for no representational reason and later sessions re-upload them'
+                          % (flow.show(val[0])[-60:] if val else '?', ', '.join(sorted(narrow))))
+    ctx.floor('R11f', 'skip guards in the indexing loop of register_shards', n_guard, 1)
